@@ -148,6 +148,11 @@ def run(chk):
         if m in derived_mutators and m not in doc and effective_owners(m, callers) <= doc and m.startswith("_"):
             chk.ob("C19.mutator-table", f"circuit.py::Circuit.{m}", True, file="circuit.py", func=f"Circuit.{m}", fact={"private_helper_of": sorted(effective_owners(m, callers))}, nontrivial=False)
             continue
+        if m in derived_mutators and m not in doc and m.startswith("_") and not m.startswith("__") and effective_owners(m, callers) == {m}:
+            # a private method no method of the class reaches: a helper of code elsewhere in the package, acting on that code's own
+            # working copy - its effect on `self` is charged to the caller's parameters at every call site (purity rule above)
+            chk.ob("C19.mutator-table", f"circuit.py::Circuit.{m}", True, file="circuit.py", func=f"Circuit.{m}", fact={"private_helper_without_callers_in_the_class": True}, nontrivial=False)
+            continue
         if m in derived_mutators and m not in doc:
             s = an.summ[("circuit.py", f"Circuit.{m}")]
             e = next((e for e in s.effects if e["param"] == "self" and e["part"] in VIOLATING_PARTS), None)
